@@ -717,3 +717,28 @@ Fixpoint run_clean (c : cfg) (h : list step) (s : state) : bool :=
   | [] => true
   | x :: r => clean_step c s x && run_clean c r (step_fn c s x)
   end.
+
+(* ---------- Engine.snapshotMu: deletes and cache snapshots exclude each other ---------- *)
+
+(* WriteSnapshot holds snapshotMu from Cache.Snapshot until the WAL segments of the snapshot
+   are removed; deleteSeriesRange holds it from its first statement to its last, and first
+   writes out a snapshot the cache retained after a failed flush (or gives up with that
+   flush's error).  In terms of steps: a delete begins only when no snapshot is in flight or
+   retained, and a snapshot begins only when no delete is running. *)
+Definition snap_idle (s : state) : bool := match sstage (sv s) with SIdle => true | _ => false end.
+Definition snap_retained (s : state) : bool := snap_idle s && negb (is_nil (snap (sv s))).
+
+Definition mu_ok (s : state) (x : step) : bool :=
+  match x with
+  | DeleteBegin _ _ _ => snap_idle s && is_nil (snap (sv s))
+  | SnapBegin => d_idle s
+  | _ => true
+  end.
+
+(* every step of the history respects the mutual exclusion (a listed step that is not
+   applicable is a no-op of [run]; listing it where the mutex would hold it back is excluded too) *)
+Fixpoint run_mu (c : cfg) (h : list step) (s : state) : bool :=
+  match h with
+  | [] => true
+  | x :: r => mu_ok s x && run_mu c r (step_fn c s x)
+  end.
